@@ -1,4 +1,6 @@
-import SC.Proofs.SrcBaseB
+import SC.Proofs.SrcBase
+import SC.Gen.Src.byt_Compare
+import SC.Gen.Src.byt_clamp
 /-!
 `bytcase.Compare` on the regenerated program text (`Gen.Src.byt`), part 1: the rune loop, which differs from strcase's — both
 arguments are decoded and folded eagerly (`s[0] < RuneSelf ? _lower[s[0]] : CaseFold(DecodeRune(s))` on each side): four decode
@@ -8,8 +10,12 @@ open GoSsa Gen.Src Utf8
 
 namespace GoSsa.Byt
 
+section
+-- the program the function lives in: any program whose `clamp` is the regenerated one
+variable (p : Prog) (hfc : p.find? (fun fn => fn.name == "clamp") = some byt_clamp)
+
 theorem clamp_run (n : Int) (h : Heap) (fuel : Nat) (hf : 6 ≤ fuel) :
-    run P true fuel (Frame.entry byt_clamp [.int n]) h = .ok [.int (Utf8.clamp n)] h := by
+    run p true fuel (Frame.entry byt_clamp [.int n]) h = .ok [.int (Utf8.clamp n)] h := by
   obtain ⟨m, rfl⟩ : ∃ m, fuel = m + 6 := ⟨fuel - 6, by omega⟩
   rw [Frame.entry]
   by_cases h1 : n < 0
@@ -48,15 +54,16 @@ end
 
 macro "cmpb_run" "[" ds:Lean.Parser.Tactic.simpLemma,* "]" : tactic =>
   `(tactic| src_run [byt_Compare, byt_Compare_b0, byt_Compare_b1, byt_Compare_b2, byt_Compare_b3, byt_Compare_b4, byt_Compare_b5, byt_Compare_b6, byt_Compare_b7, byt_Compare_b8, byt_Compare_b9, byt_Compare_b10, byt_Compare_b11, byt_Compare_b12, byt_Compare_b13, byt_Compare_b14, byt_Compare_b15, byt_Compare_b16, byt_Compare_b17, byt_Compare_b18, byt_Compare_b19, byt_Compare_b20, byt_Compare_b21, byt_Compare_b22, byt_Compare_b23, byt_Compare_b24, byt_Compare_b25, byt_Compare_b26, Str.run_call_unfold, bi_DecodeRune, bi_CaseFold,
-      nb_clamp, find_clamp, clamp_run, globalArr, lowerLoad, lowerLen, intOf, $ds,*])
+      globalArr, lowerLoad, lowerLen, intOf, $ds,*])
 
+include hfc in
 set_option maxHeartbeats 8000000 in
 theorem cmp_runesB (h : Heap) :
     ∀ (k : Nat) (sb tb : Bytes) (rs os rt ot : Nat) (env : Array (List Val)), sb.length ≤ k →
       sb.length < 4611686018427387904 → tb.length < 4611686018427387904 → env.size = 80 →
       env.getD 36 [] = [.str sb rs os] → env.getD 37 [] = [.str tb rt ot] →
       ∀ fuel, 60 * k + 60 ≤ fuel →
-      run P true fuel ⟨byt_Compare, env, 14, [.len 38 (.r 36), .bin 39 .ne .i64 (.r 38) (.c 0)], .cond (.r 39) 12 13⟩ h
+      run p true fuel ⟨byt_Compare, env, 14, [.len 38 (.r 36), .bin 39 .ne .i64 (.r 38) (.c 0)], .cond (.r 39) 12 13⟩ h
         = .ok [.int (A.cmpRunesB Fold.caseFold k sb tb)] h := by
   intro k
   induction k with
@@ -68,10 +75,10 @@ theorem cmp_runesB (h : Heap) :
     rw [cmpRunesB_nil]
     obtain ⟨m, rfl⟩ : ∃ m, fuel = m + 20 := ⟨fuel - 20, by omega⟩
     cases tb with
-    | nil => cmpb_run [hsz, h36, h37]
+    | nil => cmpb_run [Str.nb_clamp_byt, hfc, clamp_run p, hsz, h36, h37]
     | cons b t' =>
       have hl : ¬ ((t'.length : Int) + 1 = 0) := by omega
-      cmpb_run [hsz, h36, h37, hl]
+      cmpb_run [Str.nb_clamp_byt, hfc, clamp_run p, hsz, h36, h37, hl]
   | succ k ih =>
     intro sb tb rs os rt ot env hk hsl htl hsz h36 h37 fuel hf
     simp [hsz] at h36 h37
@@ -81,10 +88,10 @@ theorem cmp_runesB (h : Heap) :
       rw [cmpRunesB_nil]
       obtain ⟨m, rfl⟩ : ∃ m, fuel = m + 20 := ⟨fuel - 20, by omega⟩
       cases tb with
-      | nil => cmpb_run [hsz, h36, h37]
+      | nil => cmpb_run [Str.nb_clamp_byt, hfc, clamp_run p, hsz, h36, h37]
       | cons b t' =>
         have hl : ¬ ((t'.length : Int) + 1 = 0) := by omega
-        cmpb_run [hsz, h36, h37, hl]
+        cmpb_run [Str.nb_clamp_byt, hfc, clamp_run p, hsz, h36, h37, hl]
     | cons a s' =>
       have hl1 : ¬ ((s'.length : Int) + 1 = 0) := by omega
       have hl3 : (1 : Int) ≤ (s'.length : Int) + 1 := by omega
@@ -92,7 +99,7 @@ theorem cmp_runesB (h : Heap) :
       | nil =>
         rw [cmpRunesB_cons_nil]
         obtain ⟨m, rfl⟩ : ∃ m, fuel = m + 20 := ⟨fuel - 20, by omega⟩
-        cmpb_run [hsz, h36, h37, hl1]
+        cmpb_run [Str.nb_clamp_byt, hfc, clamp_run p, hsz, h36, h37, hl1]
       | cons b t' =>
         have hl2 : ¬ ((t'.length : Int) + 1 = 0) := by omega
         have hl4 : (1 : Int) ≤ (t'.length : Int) + 1 := by omega
@@ -120,14 +127,14 @@ theorem cmp_runesB (h : Heap) :
           by_cases e1 : Sa = Sb
           · obtain ⟨m, rfl⟩ : ∃ m, fuel = m + 30 := ⟨fuel - 30, by omega⟩
             subst e1
-            cmpb_run [hsz, h36, h37, hl1, hl2, hl3, hl4, hka, hkb, hka', hkb', ha1, hwa, hSa, hb1, hwb, hSb]
+            cmpb_run [Str.nb_clamp_byt, hfc, clamp_run p, hsz, h36, h37, hl1, hl2, hl3, hl4, hka, hkb, hka', hkb', ha1, hwa, hSa, hb1, hwb, hSb]
             rw [ih s' t' rs (os + 1) rt (ot + 1) _ (by simp at hk ⊢; omega) (by simp at hsl ⊢; omega) (by simp at htl ⊢; omega) (by simp [hsz]) (by simp [hsz]) (by simp [hsz]) _ (by omega)]
           · have e1' : ¬ ((Sa : Int) = (Sb : Int)) := by omega
             have e1s : ¬ (Sb = Sa) := fun x => e1 x.symm
             by_cases e2 : Fs = Sb
             · obtain ⟨m, rfl⟩ : ∃ m, fuel = m + 33 := ⟨fuel - 33, by omega⟩
               subst e2
-              cmpb_run [hsz, h36, h37, hl1, hl2, hl3, hl4, hka, hkb, hka', hkb', ha1, hwa, hSa, hb1, hwb, hSb, e1, e1s, e1', htus, hcbs, hFs]
+              cmpb_run [Str.nb_clamp_byt, hfc, clamp_run p, hsz, h36, h37, hl1, hl2, hl3, hl4, hka, hkb, hka', hkb', ha1, hwa, hSa, hb1, hwb, hSb, e1, e1s, e1', htus, hcbs, hFs]
               rw [ih s' t' rs (os + 1) rt (ot + 1) _ (by simp at hk ⊢; omega) (by simp at hsl ⊢; omega) (by simp at htl ⊢; omega) (by simp [hsz]) (by simp [hsz]) (by simp [hsz]) _ (by omega)]
             · have e2' : ¬ ((Fs : Int) = (Sb : Int)) := by omega
               have e2s : ¬ (Sb = Fs) := fun x => e2 x.symm
@@ -135,7 +142,7 @@ theorem cmp_runesB (h : Heap) :
               have hw1' : wrap .i64 (Fs : Int) = (Fs : Int) := Str.wrap_i64_small _ (by omega) (by omega)
               have hw2' : wrap .i64 (Sb : Int) = (Sb : Int) := Str.wrap_i64_small _ (by omega) (by omega)
               have hw3' : wrap .i64 ((Fs : Int) - (Sb : Int)) = (Fs : Int) - (Sb : Int) := Str.wrap_i64_small _ (by omega) (by omega)
-              cmpb_run [hsz, h36, h37, hl1, hl2, hl3, hl4, hka, hkb, hka', hkb', ha1, hwa, hSa, hb1, hwb, hSb, e1, e1s, e1', htus, hcbs, hFs, e2, e2s, e2', hw1', hw2', hw3']
+              cmpb_run [Str.nb_clamp_byt, hfc, clamp_run p, hsz, h36, h37, hl1, hl2, hl3, hl4, hka, hkb, hka', hkb', ha1, hwa, hSa, hb1, hwb, hSb, e1, e1s, e1', htus, hcbs, hFs, e2, e2s, e2', hw1', hw2', hw3']
         · -- a ASCII, b multi-byte
           simp only [ha, hb, if_true, if_false]
           have ha1 : (a.toNat : Int) < 128 := by have : a.toNat < 128 := ha; omega
@@ -162,14 +169,14 @@ theorem cmp_runesB (h : Heap) :
           by_cases e1 : Sa = Sb
           · obtain ⟨m, rfl⟩ : ∃ m, fuel = m + 29 := ⟨fuel - 29, by omega⟩
             subst e1
-            cmpb_run [hsz, h36, h37, hl1, hl2, hl3, hl4, hka, hkb, hka', hkb', ha1, hwa, hSa, hb1, hqb3, htkb, htub, hcbb, hSb]
+            cmpb_run [Str.nb_clamp_byt, hfc, clamp_run p, hsz, h36, h37, hl1, hl2, hl3, hl4, hka, hkb, hka', hkb', ha1, hwa, hSa, hb1, hqb3, htkb, htub, hcbb, hSb]
             rw [ih s' (List.drop (decodeRune (b :: t')).2 (b :: t')) rs (os + 1) rt (ot + (decodeRune (b :: t')).2) _ (by simp at hk ⊢; omega) (by simp at hsl ⊢; omega) (by simp at htl ⊢; omega) (by simp [hsz]) (by simp [hsz]) (by simp [hsz]) _ (by omega)]
           · have e1' : ¬ ((Sa : Int) = (Sb : Int)) := by omega
             have e1s : ¬ (Sb = Sa) := fun x => e1 x.symm
             by_cases e2 : Fs = Sb
             · obtain ⟨m, rfl⟩ : ∃ m, fuel = m + 32 := ⟨fuel - 32, by omega⟩
               subst e2
-              cmpb_run [hsz, h36, h37, hl1, hl2, hl3, hl4, hka, hkb, hka', hkb', ha1, hwa, hSa, hb1, hqb3, htkb, htub, hcbb, hSb, e1, e1s, e1', htus, hcbs, hFs]
+              cmpb_run [Str.nb_clamp_byt, hfc, clamp_run p, hsz, h36, h37, hl1, hl2, hl3, hl4, hka, hkb, hka', hkb', ha1, hwa, hSa, hb1, hqb3, htkb, htub, hcbb, hSb, e1, e1s, e1', htus, hcbs, hFs]
               rw [ih s' (List.drop (decodeRune (b :: t')).2 (b :: t')) rs (os + 1) rt (ot + (decodeRune (b :: t')).2) _ (by simp at hk ⊢; omega) (by simp at hsl ⊢; omega) (by simp at htl ⊢; omega) (by simp [hsz]) (by simp [hsz]) (by simp [hsz]) _ (by omega)]
             · have e2' : ¬ ((Fs : Int) = (Sb : Int)) := by omega
               have e2s : ¬ (Sb = Fs) := fun x => e2 x.symm
@@ -177,7 +184,7 @@ theorem cmp_runesB (h : Heap) :
               have hw1' : wrap .i64 (Fs : Int) = (Fs : Int) := Str.wrap_i64_small _ (by omega) (by omega)
               have hw2' : wrap .i64 (Sb : Int) = (Sb : Int) := Str.wrap_i64_small _ (by omega) (by omega)
               have hw3' : wrap .i64 ((Fs : Int) - (Sb : Int)) = (Fs : Int) - (Sb : Int) := Str.wrap_i64_small _ (by omega) (by omega)
-              cmpb_run [hsz, h36, h37, hl1, hl2, hl3, hl4, hka, hkb, hka', hkb', ha1, hwa, hSa, hb1, hqb3, htkb, htub, hcbb, hSb, e1, e1s, e1', htus, hcbs, hFs, e2, e2s, e2', hw1', hw2', hw3']
+              cmpb_run [Str.nb_clamp_byt, hfc, clamp_run p, hsz, h36, h37, hl1, hl2, hl3, hl4, hka, hkb, hka', hkb', ha1, hwa, hSa, hb1, hqb3, htkb, htub, hcbb, hSb, e1, e1s, e1', htus, hcbs, hFs, e2, e2s, e2', hw1', hw2', hw3']
         · -- a multi-byte, b ASCII
           simp only [ha, hb, if_true, if_false]
           have ha1 : ¬ ((a.toNat : Int) < 128) := by intro x; apply ha; show a.toNat < 128; omega
@@ -204,14 +211,14 @@ theorem cmp_runesB (h : Heap) :
           by_cases e1 : Sa = Sb
           · obtain ⟨m, rfl⟩ : ∃ m, fuel = m + 29 := ⟨fuel - 29, by omega⟩
             subst e1
-            cmpb_run [hsz, h36, h37, hl1, hl2, hl3, hl4, hka, hkb, hka', hkb', ha1, hqa3, htka, htua, hcba, hSa, hb1, hwb, hSb]
+            cmpb_run [Str.nb_clamp_byt, hfc, clamp_run p, hsz, h36, h37, hl1, hl2, hl3, hl4, hka, hkb, hka', hkb', ha1, hqa3, htka, htua, hcba, hSa, hb1, hwb, hSb]
             rw [ih (List.drop (decodeRune (a :: s')).2 (a :: s')) t' rs (os + (decodeRune (a :: s')).2) rt (ot + 1) _ (by simp at hk ⊢; omega) (by simp at hsl ⊢; omega) (by simp at htl ⊢; omega) (by simp [hsz]) (by simp [hsz]) (by simp [hsz]) _ (by omega)]
           · have e1' : ¬ ((Sa : Int) = (Sb : Int)) := by omega
             have e1s : ¬ (Sb = Sa) := fun x => e1 x.symm
             by_cases e2 : Fs = Sb
             · obtain ⟨m, rfl⟩ : ∃ m, fuel = m + 32 := ⟨fuel - 32, by omega⟩
               subst e2
-              cmpb_run [hsz, h36, h37, hl1, hl2, hl3, hl4, hka, hkb, hka', hkb', ha1, hqa3, htka, htua, hcba, hSa, hb1, hwb, hSb, e1, e1s, e1', htus, hcbs, hFs]
+              cmpb_run [Str.nb_clamp_byt, hfc, clamp_run p, hsz, h36, h37, hl1, hl2, hl3, hl4, hka, hkb, hka', hkb', ha1, hqa3, htka, htua, hcba, hSa, hb1, hwb, hSb, e1, e1s, e1', htus, hcbs, hFs]
               rw [ih (List.drop (decodeRune (a :: s')).2 (a :: s')) t' rs (os + (decodeRune (a :: s')).2) rt (ot + 1) _ (by simp at hk ⊢; omega) (by simp at hsl ⊢; omega) (by simp at htl ⊢; omega) (by simp [hsz]) (by simp [hsz]) (by simp [hsz]) _ (by omega)]
             · have e2' : ¬ ((Fs : Int) = (Sb : Int)) := by omega
               have e2s : ¬ (Sb = Fs) := fun x => e2 x.symm
@@ -219,7 +226,7 @@ theorem cmp_runesB (h : Heap) :
               have hw1' : wrap .i64 (Fs : Int) = (Fs : Int) := Str.wrap_i64_small _ (by omega) (by omega)
               have hw2' : wrap .i64 (Sb : Int) = (Sb : Int) := Str.wrap_i64_small _ (by omega) (by omega)
               have hw3' : wrap .i64 ((Fs : Int) - (Sb : Int)) = (Fs : Int) - (Sb : Int) := Str.wrap_i64_small _ (by omega) (by omega)
-              cmpb_run [hsz, h36, h37, hl1, hl2, hl3, hl4, hka, hkb, hka', hkb', ha1, hqa3, htka, htua, hcba, hSa, hb1, hwb, hSb, e1, e1s, e1', htus, hcbs, hFs, e2, e2s, e2', hw1', hw2', hw3']
+              cmpb_run [Str.nb_clamp_byt, hfc, clamp_run p, hsz, h36, h37, hl1, hl2, hl3, hl4, hka, hkb, hka', hkb', ha1, hqa3, htka, htua, hcba, hSa, hb1, hwb, hSb, e1, e1s, e1', htus, hcbs, hFs, e2, e2s, e2', hw1', hw2', hw3']
         · -- a multi-byte, b multi-byte
           simp only [ha, hb, if_true, if_false]
           have ha1 : ¬ ((a.toNat : Int) < 128) := by intro x; apply ha; show a.toNat < 128; omega
@@ -254,14 +261,14 @@ theorem cmp_runesB (h : Heap) :
           by_cases e1 : Sa = Sb
           · obtain ⟨m, rfl⟩ : ∃ m, fuel = m + 28 := ⟨fuel - 28, by omega⟩
             subst e1
-            cmpb_run [hsz, h36, h37, hl1, hl2, hl3, hl4, hka, hkb, hka', hkb', ha1, hqa3, htka, htua, hcba, hSa, hb1, hqb3, htkb, htub, hcbb, hSb]
+            cmpb_run [Str.nb_clamp_byt, hfc, clamp_run p, hsz, h36, h37, hl1, hl2, hl3, hl4, hka, hkb, hka', hkb', ha1, hqa3, htka, htua, hcba, hSa, hb1, hqb3, htkb, htub, hcbb, hSb]
             rw [ih (List.drop (decodeRune (a :: s')).2 (a :: s')) (List.drop (decodeRune (b :: t')).2 (b :: t')) rs (os + (decodeRune (a :: s')).2) rt (ot + (decodeRune (b :: t')).2) _ (by simp at hk ⊢; omega) (by simp at hsl ⊢; omega) (by simp at htl ⊢; omega) (by simp [hsz]) (by simp [hsz]) (by simp [hsz]) _ (by omega)]
           · have e1' : ¬ ((Sa : Int) = (Sb : Int)) := by omega
             have e1s : ¬ (Sb = Sa) := fun x => e1 x.symm
             by_cases e2 : Fs = Sb
             · obtain ⟨m, rfl⟩ : ∃ m, fuel = m + 31 := ⟨fuel - 31, by omega⟩
               subst e2
-              cmpb_run [hsz, h36, h37, hl1, hl2, hl3, hl4, hka, hkb, hka', hkb', ha1, hqa3, htka, htua, hcba, hSa, hb1, hqb3, htkb, htub, hcbb, hSb, e1, e1s, e1', htus, hcbs, hFs]
+              cmpb_run [Str.nb_clamp_byt, hfc, clamp_run p, hsz, h36, h37, hl1, hl2, hl3, hl4, hka, hkb, hka', hkb', ha1, hqa3, htka, htua, hcba, hSa, hb1, hqb3, htkb, htub, hcbb, hSb, e1, e1s, e1', htus, hcbs, hFs]
               rw [ih (List.drop (decodeRune (a :: s')).2 (a :: s')) (List.drop (decodeRune (b :: t')).2 (b :: t')) rs (os + (decodeRune (a :: s')).2) rt (ot + (decodeRune (b :: t')).2) _ (by simp at hk ⊢; omega) (by simp at hsl ⊢; omega) (by simp at htl ⊢; omega) (by simp [hsz]) (by simp [hsz]) (by simp [hsz]) _ (by omega)]
             · have e2' : ¬ ((Fs : Int) = (Sb : Int)) := by omega
               have e2s : ¬ (Sb = Fs) := fun x => e2 x.symm
@@ -269,6 +276,7 @@ theorem cmp_runesB (h : Heap) :
               have hw1' : wrap .i64 (Fs : Int) = (Fs : Int) := Str.wrap_i64_small _ (by omega) (by omega)
               have hw2' : wrap .i64 (Sb : Int) = (Sb : Int) := Str.wrap_i64_small _ (by omega) (by omega)
               have hw3' : wrap .i64 ((Fs : Int) - (Sb : Int)) = (Fs : Int) - (Sb : Int) := Str.wrap_i64_small _ (by omega) (by omega)
-              cmpb_run [hsz, h36, h37, hl1, hl2, hl3, hl4, hka, hkb, hka', hkb', ha1, hqa3, htka, htua, hcba, hSa, hb1, hqb3, htkb, htub, hcbb, hSb, e1, e1s, e1', htus, hcbs, hFs, e2, e2s, e2', hw1', hw2', hw3']
+              cmpb_run [Str.nb_clamp_byt, hfc, clamp_run p, hsz, h36, h37, hl1, hl2, hl3, hl4, hka, hkb, hka', hkb', ha1, hqa3, htka, htua, hcba, hSa, hb1, hqb3, htkb, htub, hcbb, hSb, e1, e1s, e1', htus, hcbs, hFs, e2, e2s, e2', hw1', hw2', hw3']
 
+end
 end GoSsa.Byt
